@@ -6,10 +6,13 @@
 (*               chunks = <<mint, maxt, crc of the samples>> in time order *)
 (*   qs[k]       one query of the history, in order:                       *)
 (*     ms, mint, maxt   the selectors [name, type, kind, alts] and range   *)
+(*     loaded     positions (in blocks) of the blocks that were in the     *)
+(*                bucket at the store's last SyncBlocks before the query   *)
 (*     oracle     frames [ls, chunks] of tsdb.OpenBlock + ChunkQuerier     *)
 (*     res[g]     one group of identical answers of the real BucketStore:  *)
 (*                who = "<store configuration>#cold|warm|again", frames    *)
 (*                in arrival order, err                                    *)
+(*   syncerrs    errors SyncBlocks returned (none expected)                *)
 (* Judged with the property-level operators of Postings only.              *)
 (***************************************************************************)
 EXTENDS TraceLib, Postings
@@ -32,7 +35,11 @@ JudgeQuery(blocks, jq) ==
         \cup (IF \A a \in answers : a = want THEN {} ELSE {"exactly-the-matching-series-and-overlapping-chunks"})
         \cup (IF Cardinality(answers) <= 1 THEN {} ELSE {"independent-of-cache-lazy-batch-sampling"})
 
-JudgeLine(e) == LET blocks == BlocksOf(e) IN UNION { JudgeQuery(blocks, e.qs[k]) : k \in DOMAIN e.qs }
+(* "For any set of blocks in object storage ...": the set the store has loaded = what was in the *)
+(* bucket at its last sync                                                                       *)
+LoadedBlocks(e, jq) == { BlockOf(e.blocks[b]) : b \in PRange(jq.loaded) }
+JudgeLine(e) == UNION { JudgeQuery(LoadedBlocks(e, e.qs[k]), e.qs[k]) : k \in DOMAIN e.qs }
+                \cup (IF e.syncerrs = <<>> THEN {} ELSE {"block-sync-succeeds"})
 
 (* Model conformance (never a verdict): the algorithm-level model of one block - external-label *)
 (* matchers decided on the block (labelMatchers), the rest through the posting groups, chunks    *)
@@ -48,9 +55,8 @@ AlgoSelect(blocks, q) ==
         lss == { FullLs(h[1], h[2]) : h \in hits }
     IN  { [ls |-> L, chunks |-> UNION { ChunkWalk(h[2].chunks, q.mint, q.maxt) : h \in { x \in hits : FullLs(x[1], x[2]) = L } }] : L \in lss }
 Drift(e) ==
-    LET blocks == BlocksOf(e) IN
     \E k \in DOMAIN e.qs : \E g \in DOMAIN e.qs[k].res :
-        e.qs[k].res[g].err = "" /\ AnswerSet(e.qs[k].res[g].frames) # AlgoSelect(blocks, QueryOf(e.qs[k]))
+        e.qs[k].res[g].err = "" /\ AnswerSet(e.qs[k].res[g].frames) # AlgoSelect(LoadedBlocks(e, e.qs[k]), QueryOf(e.qs[k]))
 
 VARIABLE l
 TraceInit == l = 1
